@@ -210,7 +210,13 @@ def vspec_for(draw, spec, t, hard=True, finite=False, depth=0, omit_defaults=Tru
                 if draw(st.booleans()):
                     kw.append([p['name'], draw(rec(p.get('type')))])
             return ['obj', cn, kw, None]
+        fixed = {}
+        if isinstance(cc.get('recognize'), list):
+            fixed = {cl[1]: cl[2] for cl in cc['recognize'] if cl[0] == 'attr_value'}
         for p in cc.get('params', []):
+            if p['name'] in fixed:
+                kw.append([p['name'], list(fixed[p['name']])])
+                continue
             if 'default' in p and omit_defaults and draw(st.booleans()):
                 continue
             v = draw(rec(p.get('type')))
@@ -566,6 +572,14 @@ def models(draw, feats=(), max_classes=5, doc_type=None):
                 sc['params'].append({'name': 'note', 'type': 'any', 'default': ['none']})
             classes.append(sc)
             objs.append('S')
+    if 'discriminator' in feats:
+        for c in classes:
+            if c.get('kind', 'obj') == 'obj' and not c.get('recognize') and \
+                    not c.get('index') and draw(st.integers(0, 3)) == 0 and \
+                    'kind' not in [p['name'] for p in c['params']]:
+                c['params'].insert(0, {'name': 'kind', 'type': 'str'})
+                c['recognize'] = [['attr_value', 'kind', ['str', draw(st.sampled_from(
+                    [c['name'].lower(), 'circle', 'k1']))]]]
     if 'trap' in feats:
         classes.append({'name': 'Trap', 'kind': 'obj', 'bases': [], 'params': [
             {'name': 'a', 'type': 'int', 'default': ['int', 0]}]})
